@@ -454,6 +454,10 @@ def install(eng):
         from .kinds import KByte as _KByte
         if len(args) == 1 and isinstance(args[0], bytes):
             return one(st, SetVal(sorted(set(args[0]))))
+        if len(args) == 1 and isinstance(args[0], View) and is_conc_int(simp(args[0].length)) and simp(args[0].length) <= 4096:
+            els = [simp(args[0].get(i_)) for i_ in range(simp(args[0].length))]
+            if all(is_conc_int(e_) for e_ in els):
+                return one(st, SetVal(sorted(set(els))))      # e.g. set(range(0, 128)): the concrete set
         if len(args) == 1 and isinstance(args[0], View) and isinstance(args[0].ekind, _KByte):
             v = args[0]
             def mem(t, _v=v):
